@@ -83,7 +83,7 @@ def tsanx(prop):
     }
 
 
-def stalex(qb=60, tb=600):
+def stalex(qb=240, tb=900):
     return {
         "name": "stalex", "dir": "stalex", "variant": "verif",
         "cmd": ["{build}/harness/stalex/stalex", "--prop", "C14", "--tier", "{tier}", "--shard", "{shard}", "--nshards", "{nshards}",
@@ -165,7 +165,7 @@ CHECKS = {
     "C05": {"level": "model_checking", "parts": [enginex("C05"), schedx("C05"), tsanx("C05"), kgx("C05", qb=120, tb=900, reuse=True)], "assumptions": A_ENGINE + A_SCHED},
     "C06": {"level": "model_checking", "parts": [enginex("C06"), schedx("C06"), tsanx("C06")], "assumptions": A_ENGINE + A_SCHED},
     "C07": {"level": "model_checking", "parts": [enginex("C07")], "assumptions": A_ENGINE},
-    "C08": {"level": "model_checking", "parts": [worldx("C08", 200, 1500)], "assumptions": []},
+    "C08": {"level": "model_checking", "parts": [worldx("C08", 300, 1800)], "assumptions": []},
     "C09": {"level": "model_checking", "parts": [worldx("C09", 200, 1500)], "assumptions": []},
     "C10": {"level": "model_checking", "parts": [worldx("C10", 150, 600), kgx(), kgx("C10", qb=120, tb=900, reuse=True)], "assumptions": []},
     "C11": {"level": "exploration", "parts": [parsex("C11"), worldx2("C11", 100, 1000), worldx3(120, 600, prop="C11")], "assumptions": []},
